@@ -234,9 +234,33 @@ def is_token(text):
     return isinstance(text, str) and text in _TOKENS
 
 
+def _st(x):
+    if isinstance(x, SymStr):
+        return x.t
+    if isinstance(x, str):
+        v = _TOKENS.get(x)
+        if isinstance(v, SymStr):
+            return v.t
+        if TOK_OPEN in x:
+            raise Unsupported("text mixing symbolic tokens and literal characters")
+        return z3.StringVal(x)
+    raise Unsupported("string operand of type %s" % type(x).__name__)
+
+
+def _unsupported(name):
+    def f(self, *a, **k):
+        raise Unsupported("str.%s on a symbolic string" % name)
+
+    f.__name__ = name
+    return f
+
+
 class SymStr(str):
     """A symbolic string travelling through real code as an opaque token (a real `str`
-    instance, so isinstance checks, truthiness (non-empty) and list/tuple handling behave)."""
+    instance, so isinstance checks and embedding into larger text behave).  Every operation
+    that looks at the CONTENT is either encoded (==, !=, <, truthiness, in, startswith,
+    endswith -> SymBool decided by the solver) or raises Unsupported (never silently
+    answered from the token text)."""
 
     def __new__(cls, term):
         tok = "%s%d%s" % (TOK_OPEN, len(_TOKENS), TOK_CLOSE)
@@ -244,6 +268,55 @@ class SymStr(str):
         s.t = term
         _TOKENS[tok] = s
         return s
+
+    def __eq__(self, o):
+        if isinstance(o, str):
+            return SymBool(self.t == _st(o))
+        return False
+
+    def __ne__(self, o):
+        if isinstance(o, str):
+            return SymBool(self.t != _st(o))
+        return True
+
+    def __lt__(self, o):
+        return SymBool(self.t < _st(o))
+
+    def __le__(self, o):
+        return SymBool(z3.Or(self.t < _st(o), self.t == _st(o)))
+
+    def __gt__(self, o):
+        return SymBool(_st(o) < self.t)
+
+    def __ge__(self, o):
+        return SymBool(z3.Or(_st(o) < self.t, self.t == _st(o)))
+
+    def __bool__(self):
+        return bool(SymBool(z3.Length(self.t) > 0))
+
+    def __hash__(self):
+        raise Unsupported("hash of a symbolic string")
+
+    def __contains__(self, o):
+        return bool(SymBool(z3.Contains(self.t, _st(o))))
+
+    def startswith(self, o, *a):
+        if a or not isinstance(o, str):
+            raise Unsupported("startswith with ranges/tuples on a symbolic string")
+        return SymBool(z3.PrefixOf(_st(o), self.t))
+
+    def endswith(self, o, *a):
+        if a or not isinstance(o, str):
+            raise Unsupported("endswith with ranges/tuples on a symbolic string")
+        return SymBool(z3.SuffixOf(_st(o), self.t))
+
+
+for _n in ("__len__", "__iter__", "__getitem__", "lower", "upper", "strip", "lstrip", "rstrip", "split", "rsplit",
+           "replace", "isdigit", "isalpha", "isalnum", "isspace", "find", "index", "rfind", "count", "partition",
+           "rpartition", "splitlines", "casefold", "capitalize", "title", "swapcase", "zfill", "encode", "translate",
+           "isnumeric", "isdecimal", "islower", "isupper", "center", "ljust", "rjust", "expandtabs", "removeprefix",
+           "removesuffix", "__add__", "__radd__", "__mul__", "__rmul__"):
+    setattr(SymStr, _n, _unsupported(_n))
 
 
 # ---- range / len / int shadows installed into the analysed module's globals ----------------
@@ -316,7 +389,7 @@ def sym_len(x):
         for m in markers:
             w = _t(m.hi) - _t(m.lo)
             total = total + z3.If(w > 0, w, 0)
-        if isinstance(x, (set, frozenset)):
+        if isinstance(x, (set, frozenset, SetList)):
             # explicit elements inside some marker or equal to an earlier explicit element are
             # not counted twice
             for idx, s in enumerate(singles):
@@ -340,9 +413,19 @@ def sym_len(x):
     return builtins.len(x)
 
 
+class SetList(list):
+    """list(<set holding RangeMarkers>): remembers that its members are pairwise distinct"""
+
+
+def sym_list(x=()):
+    if isinstance(x, (set, frozenset)) and any(isinstance(i, RangeMarker) for i in x):
+        return SetList(x)
+    return builtins.list(x)
+
+
 def install(module, names=("int", "range", "len")):
     """Shadow builtins in the globals of a module of the code under analysis."""
-    m = {"int": sym_int, "range": sym_range, "len": sym_len}
+    m = {"int": sym_int, "range": sym_range, "len": sym_len, "list": sym_list}
     for n in names:
         setattr(module, n, m[n])
 
